@@ -277,12 +277,41 @@ def specs(draw, recursive=False, weights=(0.0, 0.25, 0.5, 1.0, 2.0), max_nts=4, 
     return {'node_labels': node_labels, 'terminals': terms, 'nonterminals': nts, 'start': 'S', 'rules': rules}
 
 
+@st.composite
+def patterned(draw, spec_strategy, weights=(0.0, 0.25, 0.5, 1.0, 2.0), p_label=0.4, p_term=0.4, p_bcast=0.15):
+    """A spec some of whose terminal weights are typed patterned tensors.  Every node label gets one index type
+    (atom, or a two-summand sum, or 2x2 product) so that all factors over one label are patterns of the same type;
+    terminal['pattern'] holds the G2 tensor spec (real domain, default 0) and terminal['weights'] its dense value."""
+    from . import gen_pattern as gp
+    spec = draw(spec_strategy)
+    ltypes = {}
+    for n, size in spec['node_labels'].items():
+        T = ['atom', size]
+        if size >= 2 and draw(st.floats(0, 1)) < p_label:
+            opts = [['sum', [['atom', a], ['atom', size - a]]] for a in range(1, size)]
+            if size == 4: opts.append(['prod', [['atom', 2], ['atom', 2]]])
+            T = draw(st.sampled_from(opts))
+        ltypes[n] = T
+    for name, t in spec['terminals'].items():
+        if t['type'] and draw(st.floats(0, 1)) < p_term:
+            ps = draw(gp.tensor_specs([ltypes[nl] for nl in t['type']], values=tuple(weights), defaults=(0.0,), p_bcast=p_bcast))
+            t['pattern'] = ps
+            t['weights'] = gp.dense_of(ps).tolist()
+    spec['label_types'] = ltypes
+    return spec
+
+
 def scale_weights(spec, factor):
     """A copy of spec with all terminal weights multiplied by factor."""
     def sc(w):
         return [sc(x) for x in w] if isinstance(w, list) else w * factor
     out = dict(spec)
-    out['terminals'] = {k: dict(v, weights=sc(v['weights'])) for k, v in spec['terminals'].items()}
+    out['terminals'] = {}
+    for k, v in spec['terminals'].items():
+        nv = dict(v, weights=sc(v['weights']))
+        if v.get('pattern'):
+            nv['pattern'] = dict(v['pattern'], phys=[x * factor for x in v['pattern']['phys']])
+        out['terminals'][k] = nv
     return out
 
 
@@ -309,8 +338,27 @@ def make_semiring(kind, dtype):
     raise ValueError(kind)
 
 
+def build_patterned_weight(ps, kind, dtype, info, name, leaf=False):
+    """PatternedTensor for a terminal's G2 spec (given in the real domain, default 0) in the semiring's domain."""
+    import torch
+    from . import gen_pattern as gp
+    from fggs.indices import PatternedTensor, PhysicalAxis
+    sizes = ps['paxes']
+    base = [1 if d in ps['bcast'] else sizes[d] for d in range(len(sizes))]
+    t = _convert(ps['phys'], kind, dtype).reshape(base)
+    if leaf:
+        t.requires_grad_(True)
+        info['leaves'][name] = t
+    if ps['bcast']:
+        t = t.expand(sizes)
+    paxes = tuple(PhysicalAxis(n) for n in sizes)
+    vaxes = tuple(gp.build_axis(P, paxes) for P in ps['vaxes'])
+    default = {'real': 0.0, 'log': -INF, 'viterbi': -INF, 'bool': False}[kind]
+    return PatternedTensor(t, paxes, vaxes, default)
+
+
 def build(spec, kind='real', dtype=None, weight_hook=None, explicit_ids=False, range_domains=False,
-          node_prefix='v', edge_prefix='e'):
+          node_prefix='v', edge_prefix='e', leaf_patterns=False):
     """Build an FGG from a spec through the public API.
     weight_hook(name, tensor) -> tensor|PatternedTensor lets callers wrap leaves / patterns.
     Returns (fgg, info) where info has the Node/Edge objects per rule for later inspection."""
@@ -346,7 +394,10 @@ def build(spec, kind='real', dtype=None, weight_hook=None, explicit_ids=False, r
         dom = RangeDomain(size) if range_domains else FiniteDomain([f'{n}_{i}' for i in range(size)])
         fgg.add_domain(nls[n], dom)
     for n, t in spec['terminals'].items():
-        w = _convert(t['weights'], kind, dtype)
+        if t.get('pattern') and weight_hook is None:
+            w = build_patterned_weight(t['pattern'], kind, dtype, info, n, leaf=leaf_patterns)
+        else:
+            w = _convert(t['weights'], kind, dtype)
         if weight_hook is not None:
             w = weight_hook(n, w)
         doms = [fgg.domains[x] for x in t['type']]
